@@ -132,7 +132,7 @@ package core
 // on the caller's stack (partial) when visit was entered.
 //@ func (cycleDetector).Check.lit#1
 //@   requires c != nil && target != nil
-//@   requires distinct: partial != complete
+//@   requires distinct: partial != complete && partial != nil && complete != nil
 //@   modifies partial complete
 //@   invariant "range target.Dependencies()" stack: forall t *BuildTarget :: in(t, partial) == (old(in(t, partial)) || t == target)
 //@   invariant "range target.Dependencies()" fresh: !old(in(target, partial))
@@ -179,6 +179,31 @@ package core
 //@   invariant "range coverage" merged: forall k int :: 0 <= k && k < len(ret) ==> ret[k] == mergedAt(existing, coverage, idx, k)
 //@   ensures length [C27]: len(result) == max(len(existing), len(coverage))
 //@   ensures pointwise [C27]: forall k int :: 0 <= k && k < len(result) ==> result[k] == mergedAt(existing, coverage, len(coverage), k)
+//
+// Aggregate: per file, the lines become the merge of what was there and what the other run saw; files only
+// the accumulator knew are kept as they were. (Tests are overwritten per label: "tests are independent".)
+//@ func (TestCoverage).Aggregate
+//@   requires coverage != nil && cov != nil && coverage != cov
+//@   requires distinct: coverage.Files == nil || coverage.Files != cov.Files
+//@   invariant "range cov.Tests" files_kept: old(coverage.Files) != nil ==> coverage.Files == old(coverage.Files)
+//@   invariant "range cov.Tests" files_fresh: old(coverage.Files) == nil ==> coverage.Files != nil && coverage.Files != cov.Files && \
+//@      (forall f string :: !in(f, coverage.Files))
+//@   invariant "range cov.Tests" files_same: forall f string :: in(f, coverage.Files) == old(in(f, coverage.Files)) && \
+//@      (in(f, coverage.Files) ==> coverage.Files[f] == old(coverage.Files[f]))
+//@   invariant "range cov.Files" ref: coverage.Files != nil && coverage.Files != cov.Files
+//@   invariant "range cov.Files" cov_same: forall f string :: in(f, cov.Files) == old(in(f, cov.Files)) && \
+//@      (in(f, cov.Files) ==> cov.Files[f] == old(cov.Files[f]))
+//@   invariant "range cov.Files" dom: forall f string :: in(f, coverage.Files) == (old(in(f, coverage.Files)) || visited(f))
+//@   invariant "range cov.Files" todo: forall f string :: !visited(f) && in(f, coverage.Files) ==> coverage.Files[f] == old(coverage.Files[f])
+//@   invariant "range cov.Files" done_len: forall f string :: visited(f) ==> \
+//@      len(coverage.Files[f]) == max(len(old(coverage.Files[f])), len(cov.Files[f]))
+// (attempted, not claimed: the pointwise content invariant  forall f, k :: visited(f) ==> coverage.Files[f][k] ==
+//  mergedAt(old(coverage.Files[f]), cov.Files[f], len(cov.Files[f]), k)  is not decided by any solver within budget; an
+//  unproved invariant must not be assumed, so it is left out. Per-call content is MergeCoverageLines' contract.)
+//@   ensures files [C27]: forall f string :: in(f, coverage.Files) == (old(in(f, coverage.Files)) || in(f, cov.Files))
+//@   ensures kept [C27]: forall f string :: !in(f, cov.Files) && in(f, coverage.Files) ==> coverage.Files[f] == old(coverage.Files[f])
+//@   ensures merged_len [C27]: forall f string :: in(f, cov.Files) ==> \
+//@      len(coverage.Files[f]) == max(len(old(coverage.Files[f])), len(cov.Files[f]))
 //
 //@ spec at(s []LineCoverage, k int) LineCoverage = ite(0 <= k && k < len(s), s[k], 0)
 //@ spec mergedAt(a []LineCoverage, b []LineCoverage, n int, k int) LineCoverage = ite(k < n, max(at(a, k), at(b, k)), at(a, k))
